@@ -177,6 +177,33 @@ Lemma client_loop_defer_is_direct :
            "websocket.conn.Send"; "websocket.conn.Receive"] = true.
 Proof. vm_compute. reflexivity. Qed.
 
+(* panics of the service function, of invoke plugins and of the missing-method handler are stopped by
+   Service.Process' own closure: they never unwind through the IO plugins or the transport handler *)
+Definition invoke_level (f : fault) : bool :=
+  match f with FServicePanic | FInvokePluginPanic | FMissingPanic => true | _ => false end.
+
+Definition is_call_error (v : verdict) : bool := match v with CallError => true | _ => false end.
+
+Lemma invoke_level_b :
+  forallb (fun c => implb (applicable c && side_eqb (c_side c) Server && invoke_level (c_fault c))
+                          (match recovering_frame table c with
+                           | Some f => String.eqb f "core.Service.Process$1"
+                           | None => false
+                           end && is_call_error (verdict_of table c))) all_cells = true.
+Proof. vm_compute. reflexivity. Qed.
+
+Lemma invoke_level_in_process : forall c : cell,
+  applicable c = true -> c_side c = Server -> invoke_level (c_fault c) = true ->
+  recovering_frame table c = Some "core.Service.Process$1" /\ verdict_of table c = CallError.
+Proof.
+  intros c Ha Hs Hf. pose proof invoke_level_b as H. rewrite forallb_forall in H.
+  specialize (H c (all_cells_complete c)). rewrite Ha, Hs, Hf in H. cbn [side_eqb andb implb] in H.
+  apply andb_true_iff in H. destruct H as [H1 H2]. split.
+  - destruct (recovering_frame table c) as [f|]; [|discriminate].
+    apply String.eqb_eq in H1. subst f. reflexivity.
+  - destruct (verdict_of table c); try discriminate. reflexivity.
+Qed.
+
 (* fault cells that surface on a goroutine with an unprotected entry are stopped further in *)
 Lemma covered_b :
   forallb (fun c => implb (applicable c) (covered_by_inner_frame table c)) all_cells = true /\
